@@ -362,3 +362,106 @@ class AbsList:
             return self
         return NotImplemented
 
+
+
+# -------------------------------------------------------------------------------------------------
+# concrete-shape arrays with symbolic entries, file stubs (parsers)
+# -------------------------------------------------------------------------------------------------
+
+import numpy as _np  # noqa: E402
+
+
+class NdArr:
+    """n-d array of concrete shape whose entries are numbers or Syms; indices must be concrete."""
+
+    _zpy = True
+
+    def __init__(self, shape, fill=0):
+        self.a = _np.empty(shape, dtype=object)
+        self.a.fill(fill)
+
+    @staticmethod
+    def _ix(idx):
+        def one(i):
+            if isinstance(i, Sym):
+                raise OutsideSubset("symbolic index into a concrete-shape array")
+            if isinstance(i, slice):
+                return i
+            return int(i)
+
+        if isinstance(idx, tuple):
+            return tuple(one(i) for i in idx)
+        return one(idx)
+
+    def z_getitem(self, it, idx):
+        try:
+            v = self.a[self._ix(idx)]
+        except IndexError as e:
+            from .interp import PyRaise
+
+            raise PyRaise("IndexError", str(e)) from None
+        if isinstance(v, _np.ndarray):
+            r = NdArr(v.shape)
+            r.a = v  # a view, like numpy
+            return r
+        return v
+
+    def z_setitem(self, it, idx, value):
+        try:
+            self.a[self._ix(idx)] = value
+        except IndexError as e:
+            from .interp import PyRaise
+
+            raise PyRaise("IndexError", str(e)) from None
+
+    def z_len(self, it):
+        return self.a.shape[0]
+
+    def z_val(self, world):
+        f = world.uf_raw(f"ndarr{self.a.size}", [world_val_sort()] * self.a.size, world_val_sort())
+        return f(*[world.to_val(x) for x in self.a.reshape(-1)])
+
+
+def world_val_sort():
+    from .interp import Val
+
+    return Val
+
+
+def zeros_nd(it, args, kwargs):
+    shp = args[0]
+    if isinstance(shp, int):
+        shp = (shp,)
+    if isinstance(shp, tuple) and all(isinstance(s, int) for s in shp):
+        return NdArr(shp, 0)
+    return zeros(it, args, kwargs)
+
+
+class LineStub:
+    _zpy = True
+
+    def __init__(self, tokens):
+        self.tokens = tokens
+
+    def split(self, it, *a):
+        return list(self.tokens)
+
+
+class FileStub:
+    """Text file given as a list of token lists (the structure-defining tokens are concrete, the values symbolic)."""
+
+    _zpy = True
+
+    def __init__(self, lines):
+        self.lines = list(lines)
+        self.pos = 0
+
+    def readline(self, it):
+        if self.pos >= len(self.lines):
+            return LineStub([])
+        ln = self.lines[self.pos]
+        self.pos += 1
+        return LineStub(ln)
+
+    def __enter__(self):
+        return self
